@@ -278,4 +278,5 @@ def run(ctx):
     ctx.oblige('runtime oracle: no panic / crash / hang on %d inputs (accepted %d, rejected %d)' % (len(cases), acc, rej), 'oracle', bad == 0)
     for c in cases[:3]:
         ctx.sample(dict(case=c[:300], go=go.get(lib.case_id(c))))
+    ctx.level = 'exploration'     # the property is about the running code; the theorems of Properties/C10.v carry its termination half only
     lib.epilogue(ctx)
